@@ -23,9 +23,26 @@ ROOT = os.path.dirname(os.path.abspath(__file__))
 sys.path.insert(0, ROOT)
 HARNESS = os.path.join(ROOT, "harness")
 TARGET = os.path.join(ROOT, "target")
+# The registered checks always build against /repo. For background sweeps and for trying seeded changes in a scratch
+# worktree, FV_REPO=<dir> (or VP_RUN_REPO, set by `vp run --with-repo`) points a *copy* of the harness at another tree.
+ALT_REPO = os.environ.get("FV_REPO") or os.environ.get("VP_RUN_REPO")
+if ALT_REPO and os.path.realpath(ALT_REPO) != "/repo":
+    _tag = hashlib.sha256(os.path.realpath(ALT_REPO).encode()).hexdigest()[:10]
+    _alt = os.path.join(ROOT, "run", "alt-" + _tag)
+    os.makedirs(_alt, exist_ok=True)
+    subprocess.run(["rsync", "-a", "--delete", "--exclude", "target", HARNESS + "/", os.path.join(_alt, "harness") + "/"], check=True)
+    _ct = os.path.join(_alt, "harness", "Cargo.toml")
+    _s = open(_ct).read().replace('path = "/repo/', 'path = "' + os.path.realpath(ALT_REPO) + "/")
+    open(_ct, "w").write(_s)
+    shutil.copy(os.path.join(os.path.realpath(ALT_REPO), "Cargo.lock"), os.path.join(_alt, "harness", "Cargo.lock"))
+    HARNESS = os.path.join(_alt, "harness")
+    TARGET = os.path.join(_alt, "target")
+    RUN_TAG = "alt-" + _tag
+else:
+    RUN_TAG = None
 FV = os.path.join(TARGET, "verif", "fv")
-RUN = os.path.join(ROOT, "run")
-EVID = os.path.join(ROOT, "evidence")
+RUN = os.path.join(ROOT, "run") if not RUN_TAG else os.path.join(ROOT, "run", RUN_TAG, "runs")
+EVID = os.path.join(ROOT, "evidence") if not RUN_TAG else os.path.join(ROOT, "run", RUN_TAG, "evidence")
 REPLAYS = os.path.join(ROOT, "replays")
 KNOWN = os.path.join(ROOT, "known_findings.json")
 SUITES = ["ed25519", "ristretto255", "ed448", "p256", "secp256k1", "secp256k1-tr"]
